@@ -35,6 +35,7 @@ ALL_VERSIONS = ['1.0', '1.1', '1.2', '1.4', '1.5', '1.6', '1.7', '1.8', '1.9',
 
 
 def vge(lo, hi=None):
+    lo = lo or '1.0'
     out = [v for v in ALL_VERSIONS if M.ver(v) >= M.ver(lo)]
     if hi:
         out = [v for v in out if M.ver(v) <= M.ver(hi)]
@@ -84,7 +85,13 @@ class Gen(object):
             c2 = [v for v in cands if v in self.versions]
             if c2:
                 cands = c2
-        return self.pick(cands)
+        v = self.pick(cands)
+        # the same version spelled differently: "latest", or no header at all
+        if v == '1.39' and self.chance(0.12):
+            return 'latest'
+        if v == '1.0' and self.chance(0.3):
+            return None
+        return v
 
     def chance(self, p):
         return self.rng.random() < p
@@ -271,6 +278,9 @@ class Gen(object):
             return None
         u = self.pick(missing)
         b = {'name': 'rp-%s-%d' % (u[-2:], self.name_seq), 'uuid': u}
+        if self.chance(0.1):
+            # other spellings of the same uuid; the API stores the canonical
+            b['uuid'] = self.pick([u.upper(), u.replace('-', '')])
         ex = self.existing_p(m)
         if ex and self.chance(0.55):
             v = self.ver('1.14')
@@ -747,7 +757,10 @@ class Gen(object):
             elif clear or not self._inject_alloc_defect(m, alloc, d, {c}):
                 d = None
         b = self._alloc_body(v, alloc, c, m, cg)
-        return {'m': 'PUT', 'p': '/allocations/' + c, 'v': v, 'b': b,
+        cpath = c
+        if self.chance(0.08):
+            cpath = self.pick([c.upper(), c.replace('-', '')])
+        return {'m': 'PUT', 'p': '/allocations/' + cpath, 'v': v, 'b': b,
                 'defect': d, 'consumers': [c], 'exists': exists}
 
     def g_alloc_post(self, m):
